@@ -403,10 +403,22 @@ func runProperty(repo, prop, tier, evid, knownPath string) int {
 			und.fail("undecided:"+fnName+":"+u.Msg, u.Where, u.Msg)
 		}
 	}
+	// cover what the build covers: no non-test source file of the module may be excluded from the analysed build
+	for _, p := range prog.Pkgs {
+		for _, f := range p.IgnoredFiles {
+			if strings.HasSuffix(f, ".go") && !strings.HasSuffix(f, "_test.go") {
+				und.fail("ignored-file:"+f[strings.LastIndex(f, "/")+1:], f, "source file is excluded from the default build configuration (build constraint) and was not analysed")
+			}
+		}
+	}
 	if len(und.Findings) == 0 {
-		und.ok(fmt.Sprintf("%d functions reachable from the API entries, all statements and calls classified", len(reach)))
+		und.ok(fmt.Sprintf("%d functions reachable from the API entries, all statements and calls classified; no source file excluded from the build", len(reach)))
 	}
 	results = append(results, und)
+	if tier == "thorough" && prop != "C20" {
+		results = append(results, ruleSSAAudit(c))
+		results = append(results, thoroughReload(repo, prop, results)...)
+	}
 	nsites, nsnaps := 0, 0
 	for _, ss := range c.A.FnSites {
 		nsites += len(ss)
@@ -455,3 +467,38 @@ func (c *RC) reachableFromAPI() map[string]bool {
 }
 
 var _ = os.Exit
+
+// thoroughReload re-runs the property's rules on a second build configuration (GOARCH=386, tag verif) and
+// reports any rule whose verdict differs from the default configuration.
+func thoroughReload(repo, prop string, base []*RuleResult) []*RuleResult {
+	r := &RuleResult{Rule: "RELOAD-386", Kind: "AUDIT", Doc: "thorough tier: the same rules on GOARCH=386 with build tag verif give the same verdicts (covers build-constrained files)"}
+	prog, err := loadProgram(repo, "verif", []string{"GOARCH=386"})
+	if err != nil {
+		r.fail("load-386", "", err.Error())
+		return []*RuleResult{r}
+	}
+	c := newRC(prog, "thorough")
+	baseF := map[string]int{}
+	for _, b := range base {
+		baseF[b.Rule] = len(b.Findings)
+	}
+	for _, rf := range propertyRules[prop] {
+		func() {
+			defer func() {
+				if e := recover(); e != nil {
+					r.fail("panic-386", "", fmt.Sprint(e))
+				}
+			}()
+			res := rf(c)
+			r.Sites++
+			if len(res.Findings) == baseF[res.Rule] {
+				r.ok(fmt.Sprintf("%s: same verdict on GOARCH=386/-tags verif (%d obligations)", res.Rule, res.Obligations))
+			} else {
+				for _, f := range res.Findings {
+					r.fail("386:"+f.Rule+":"+f.Construct, f.Where, "only on GOARCH=386/-tags verif: "+f.Detail)
+				}
+			}
+		}()
+	}
+	return []*RuleResult{r}
+}
